@@ -196,8 +196,8 @@ def check_format_input_orientation(inp, init_format=False):
         inp = Rotation.from_quat(inpQ)
     else:
         inpQ = inp.as_quat()
-    # an object path has at least one entry
-    if np.size(inpQ) == 0:
+    # an object path has at least one entry (an empty rotation given to `rotate` does nothing)
+    if init_format and np.size(inpQ) == 0:
         raise MagpylibBadUserInput(
             "Input parameter `orientation` must not be an empty scipy `Rotation` object."
         )
